@@ -20,6 +20,9 @@ import (
 const c07Rule = "rapid: schema-valid AuthnRequest / LogoutRequest / AttributeQuery messages built by the simulated SP (every optional part on/off, prefix styles std/default/odd/local, indentation, comments, quoting, XML declaration, character references, ID and RelayState alphabets, timestamps with 0-9 fractional digits) sent through every binding the IdP advertises for the endpoint (SSO and SLO: Redirect, POST; attribute service: SOAP), unsigned where nothing requires a signature or correctly signed (rsa-sha1 / rsa-sha256, sha1 / sha256 digests, KeyInfo present or absent, certificate text plain / wrapped at 64 or 76 columns / padded - in the request and in the registered metadata -, ds: / dsig: / default prefix; Redirect: query-string signature over the octets as sent) with percent-encoding in upper- or lower-case hex, '+' or %20, minimal or exhaustive escaping, addressed to the advertised location and inside the validity window (>= 5 s margin). Oracle: AuthnRequest => exactly one successful CreateAuthRequest and 303 to the login URL; LogoutRequest => LogoutResponse with status Success; AttributeQuery => SOAP Response with status Success. Non-trivial: differs from the repository's fixtures in at least one style dimension. Distinct by the style vector."
 
 type C07Case struct {
+	// BOM: the XML text starts with a UTF-8 byte order mark; Chunked: the HTTP body is sent without announced length
+	BOM     bool `json:"bom,omitempty"`
+	Chunked bool `json:"chunked,omitempty"`
 	Kind   string          `json:"kind"` // authn | logout | attrquery
 	SSO    SSOCase         `json:"sso"`  // Spec, Host, SP, Style, Sign, RSign, Tr (+ Req for authn)
 	Logout spsim.LogoutReq `json:"logout"`
@@ -45,7 +48,7 @@ func genC07Case(t *rapid.T) C07Case {
 			spec.SPs[i].SLO = []world.SLOSpec{{Binding: world.BindPost, Location: fmt.Sprintf("https://sp%d.example/slo", i)}}
 		}
 	}
-	c := C07Case{Kind: rapid.SampledFrom([]string{"authn", "authn", "authn", "logout", "attrquery"}).Draw(t, "kind")}
+	c := C07Case{Kind: rapid.SampledFrom([]string{"authn", "authn", "authn", "logout", "attrquery"}).Draw(t, "kind"), BOM: rapid.IntRange(0, 4).Draw(t, "bom") == 0, Chunked: rapid.IntRange(0, 3).Draw(t, "chunked") == 0}
 	s := SSOCase{Spec: spec, Host: rapid.SampledFrom(reqHosts).Draw(t, "host")}
 	// a conformant SP that must sign has a registered certificate
 	var candidates []int
@@ -205,8 +208,13 @@ func c07Render(c C07Case, now time.Time) (obs.HTTPReq, error) {
 	if c.Kind == "attrquery" {
 		tree = spsim.Envelope(tree, c.Soap)
 	}
-	hr, _, err := spsim.Encode(path, xt.Write(tree, s.Style.W), s.Tr, s.RSign)
+	x := xt.Write(tree, s.Style.W)
+	if c.BOM {
+		x = append([]byte("\xef\xbb\xbf"), x...) // a UTF-8 byte order mark in front of the document is legal XML
+	}
+	hr, _, err := spsim.Encode(path, x, s.Tr, s.RSign)
 	hr.Host = s.Host
+	hr.Chunked = c.Chunked && hr.Body != ""
 	return hr, err
 }
 
